@@ -739,6 +739,58 @@ fn c01_tuple(r: &mut Rep) {
     }
 }
 
+// c01, members designated by tuple index (From direction): own member k receives `value.<designated index>` under the
+// member's instruction - by position when nothing is designated, by the index given in #[map(i)], #[map(i, expr)] and
+// #[as_type(i, T)] otherwise - for a tuple struct and for a named struct mapped onto `B as ()`
+fn c01_positional(r: &mut Rep) {
+    // (instruction text with @I@ for the designated index, designates?, expected expression on `value.@S@`)
+    let forms: Vec<(&str, bool, &str)> = vec![
+        ("", false, "value.@S@"),
+        ("#[map(@I@)] ", true, "value.@S@"),
+        ("#[map(@I@, ~.clone())] ", true, "value.@S@.clone()"),
+        ("#[map(~.clone())] ", false, "value.@S@.clone()"),
+        ("#[as_type(i64)] ", false, "value.@S@asi32"),
+        ("#[as_type(@I@, i64)] ", true, "value.@S@asi32"),
+        ("#[from(@I@, ~ + 1)] ", true, "value.@S@+1"),
+    ];
+    let perms: [[usize; 3]; 6] = [[0, 1, 2], [0, 2, 1], [1, 0, 2], [1, 2, 0], [2, 0, 1], [2, 1, 0]];
+    for named in [false, true] {
+        for perm in perms.iter() {
+            for f0 in &forms { for f1 in &forms { for f2 in &forms {
+                let fs = [f0, f1, f2];
+                let mut members = vec![];
+                let mut exp: BTreeMap<String, String> = BTreeMap::new();
+                for k in 0..3 {
+                    let idx = if fs[k].1 { perm[k] } else { k };
+                    let own = if named { format!("m{}", k) } else { format!("{}", k) };
+                    members.push(format!("{}{}i32", fs[k].0.replace("@I@", &perm[k].to_string()), if named { format!("{}: ", own) } else { String::new() }));
+                    exp.insert(own, fs[k].2.replace("@S@", &idx.to_string()));
+                }
+                let src = if named { format!("#[from(B as ())]\nstruct A {{ {} }}", members.join(", ")) } else { format!("#[from(B)]\nstruct A({});", members.join(", ")) };
+                r.cases += 1;
+                let out = match expand(&src) { Ok(o) => o, Err(e) => { r.fail(&src, format!("does not expand: {}", e)); continue; } };
+                let is = match impls(&out) { Ok(i) => i, Err(e) => { r.fail(&src, e); continue; } };
+                if is.len() != 2 { r.fail(&src, format!("{} impls instead of 2", is.len())); continue; }
+                for i in &is {
+                    let got: Result<BTreeMap<String, String>, String> = if named {
+                        assignments(i, "-").and_then(|(g, rest)| if rest.is_empty() { Ok(g) } else { Err(format!("extra statements {:?}", rest)) })
+                    } else {
+                        // A(e0, e1, e2,)
+                        match i.stmts.as_slice() {
+                            [syn::Stmt::Expr(syn::Expr::Call(c))] if ts(&c.func) == "A" => Ok(c.args.iter().enumerate().map(|(k, a)| (k.to_string(), ts(a).replace(' ', ""))).collect()),
+                            o => Err(format!("body is not one constructor call: {:?}", o.iter().map(|s| ts(s)).collect::<Vec<_>>())),
+                        }
+                    };
+                    match got {
+                        Ok(g) if g == exp => {}
+                        o => { r.fail(&src, format!("[{}] {:?}, every own member must receive the designated counterpart position: {:?}", i.head, o, exp)); break; }
+                    }
+                }
+            } } }
+        }
+    }
+}
+
 // ---------------------------------------------------------------- c04: exactly the documented impls, one per (kind, fallibility, counterpart)
 fn documented(name: &str) -> (bool, Vec<&'static str>) {
     let fall = name.contains("try_");
@@ -882,7 +934,7 @@ fn main() {
         "c03" => c03(&mut r),
         "c11" => c11(&mut r),
         "c07" => c07(&mut r),
-        "c01" => { c01(&mut r); c01_tuple(&mut r); }
+        "c01" => { c01(&mut r); c01_tuple(&mut r); c01_positional(&mut r); }
         "c04" => c04(&mut r),
         "c02" => c02(&mut r),
         "c17" => c17(&mut r),
